@@ -47,8 +47,10 @@ def execOp (op : Op) : M (List String) := do
     | .dup k => pure ["ret dup", s!"id h {k.render}"]
     | .err cls => pure [s!"ret err:{cls}"]
   | .rmh name =>
+    -- the harness removes the first handler of that name in insertion order (`Handlers::iter`)
     let w ← get
-    match w.handlers.toList.find? fun (_, h) => h.name == name with
+    let live := w.byInsertOrder.filterMap fun k => (w.handlers.get k).map fun h => (k, h)
+    match live.find? fun (_, h) => h.name == name with
     | some (k, _) => pure [renderResult (← removeHandler k)]
     | none => pure ["ret none"]
   | .addc k =>
